@@ -59,6 +59,9 @@ msgs.append(msg("Emb", [
     m("EmbLeaves", "Leaf", card="repeated"),
     fld("EmbTime", "timestamp", stdTime=True),
     fld("EmbCustom", "string", customType="StrCustomA", nullable="false"),
+    # a message without fields held by value / by pointer inside the nullable embedded message (F15)
+    m("EmbEmptyV", "Empty", nullable="false"),
+    m("EmbEmptyP", "Empty"),
 ]))
 
 # embedded by value, with a oneof
@@ -81,6 +84,12 @@ _num[0] = 0
 msgs.append(msg("HasEmptyEmbed", [
     fld("Title", "string"),
     m("EmptyPart", "Empty", embed=True, nullable="false"),
+]))
+
+# a message whose ONLY field is an embedded message without fields: nothing but the placeholder to copy (F16)
+_num[0] = 0
+msgs.append(msg("OnlyEmb", [
+    m("EmptyOnly", "Empty", embed=True, nullable="false"),
 ]))
 
 _num[0] = 0
@@ -146,6 +155,12 @@ sink_fields += [
     fld("EmptyMap", "message", typeName="Empty", card="map", mapKey="string"),
     fld("EmptyMapV", "message", typeName="Empty", card="map", mapKey="string", nullable="false"),
     m("WithEmptyEmbed", "HasEmptyEmbed"),
+    m("OnlyP", "OnlyEmb"),
+    m("OnlyV", "OnlyEmb", nullable="false"),
+    m("Onlys", "OnlyEmb", card="repeated"),
+    m("OnlysV", "OnlyEmb", card="repeated", nullable="false"),
+    fld("OnlyMap", "message", typeName="OnlyEmb", card="map", mapKey="string"),
+    fld("OnlyMapV", "message", typeName="OnlyEmb", card="map", mapKey="string", nullable="false"),
     fld("OA", "string", oneof=0),
     fld("OB", "bool", oneof=0),
     m("OC", "Inner", oneof=0),
@@ -160,6 +175,10 @@ sink_fields += [
     fld("json_named", "string", jsonTag="renamed,omitempty"),
     fld("JsonDash", "string", jsonTag="-"),
     fld("subpackage", "string", comment=" import and package words\n"),
+    # lower_snake names with a digit at the end of a segment / a one-letter segment: the attribute name is the proto name
+    fld("s3_bucket", "string"),
+    fld("ipv4_prefix", "uint32", card="repeated"),
+    fld("x_axis", "double"),
     fld("Excluded", "string"),
     # messages declared in a dependency file that has a Go package of its own (qualified struct types, import_path_overrides)
     m("Label", "DepLabel"),
